@@ -7,7 +7,7 @@ offsets `51 i` into 32 little-endian bytes) returns the bytes of the canonical r
 namespace EdVerif.Proofs
 open EdVerif EdVerif.Prims EdVerif.Gen EdVerif.Impl
 
-theorem get_set! (x : Bytes) (k v i : Nat) :
+theorem bytes_get_set! (x : Bytes) (k v i : Nat) :
     (x.set! k v)[i]! = if k = i ∧ k < x.size then v else x[i]! := by
   simp only [Array.set!_eq_setIfInBounds, Array.getElem!_eq_getD, Array.getD_eq_getD_getElem?,
     Array.getElem?_setIfInBounds]
@@ -65,7 +65,7 @@ theorem orFrom_spec (base : Nat) : ∀ (buf : List Nat) (n : Nat) (out : Bytes),
       have h1 : ¬ (base + (n + 1) ≤ i ∧ i < base + (n + 1) + bs.length ∧ i < out.size) := by omega
       have h2 : ¬ (base + n ≤ i ∧ i < base + n + (b :: bs).length ∧ i < out.size) := by omega
       rw [if_neg h1, if_neg h2]
-    · rw [if_neg hoff, get_set!]
+    · rw [if_neg hoff, bytes_get_set!]
       simp only [List.length_cons]
       by_cases hi : base + n = i
       · subst hi
@@ -208,7 +208,7 @@ theorem bytes_spec' {a : Prims.Fe} (ha : U64 a) :
 
 theorem bytes_spec {a : Prims.Fe} (ha : Inv a) :
     (Fe.bytes a).size = 32 ∧ ∀ i, i < 32 → (Fe.bytes a)[i]! = (val a % P) / 256^i % 256 :=
-  bytes_spec' (inv_u64 ha)
+  bytes_spec' (inv_U64 ha)
 
 
 /-! ### consequences: round trip, dependence on the residue only -/
@@ -225,9 +225,9 @@ theorem LEpre_digits (x : Bytes) (N : Nat) :
     ring
 
 /-- the little-endian value of `bytes a` is the canonical representative -/
-theorem LE_bytes {a : Prims.Fe} (ha : U64 a) : LE (Fe.bytes a) = val a % P := by
+theorem LEsum_bytes {a : Prims.Fe} (ha : U64 a) : LEsum (Fe.bytes a) = val a % P := by
   obtain ⟨hs, hg⟩ := bytes_spec' ha
-  rw [LE, hs, LEpre_digits _ _ 32 hg]
+  rw [LEsum, hs, LEpre_digits _ _ 32 hg]
   apply Nat.mod_eq_of_lt
   have h : val a % P < P := Nat.mod_lt _ P_pos
   simp only [P, EdVerif.P] at *
@@ -250,7 +250,7 @@ theorem setBytes_bytes {a : Prims.Fe} (ha : U64 a) : Fe.setBytes (Fe.bytes a) = 
   obtain ⟨rl, rv⟩ := reduce_spec' ha
   rw [he]
   refine congrArg some (val_inj_lt51 hl rl ?_)
-  rw [hv, rv, LE_bytes ha]
+  rw [hv, rv, LEsum_bytes ha]
   apply Nat.mod_eq_of_lt
   have h : val a % P < P := Nat.mod_lt _ P_pos
   simp only [P, EdVerif.P] at *
